@@ -40,7 +40,10 @@ def gen_world(r, res=None, small=False):
         # several looms of ONE host (names equal up to the first dot): their order is decided by the full name
         fam = r.choice([["node1.0", "node1.1", "node1.2", "node1.10"], ["host.3", "host.12", "host.1", "host"],
                         ["a.b.c", "a.b", "a.c", "a.b.d"]])
-        names = r.sample(fam, min(nl, len(fam))) + names[len(fam):]
+        pick = r.sample(fam, min(nl, len(fam)))
+        names = pick + [x for x in names if x not in pick][:nl - len(pick)]
+        while len(names) < nl:          # loom names are unique in a world
+            names.append(next(x for x in LOOM_NAMES if x not in names))
     rank_mode = r.choice(["none", "none", "all", "all", "some-looms", "ties"])
     if nl == 1 and rank_mode == "some-looms":
         rank_mode = "all"
@@ -628,7 +631,7 @@ def check(res, tier, replay=None):
                                 "model_asis": c.asis[:80], "model_fixed": c.fixed[:80]}, limit=8)
                 hdr = "# %s %s expect=%s\n" % (c.group, c.kind, c.expect)
                 tail = "# ovniemu: %s\n# model asis: %s\n# model fixed: %s\n# stderr tail:\n# %s\n" % (
-                    v, c.asis, c.fixed, "\n# ".join(out["err"].strip().split("\n")[-6:]))
+                    v, c.asis, c.fixed, "\n# ".join([l for l in out["err"].strip().split("\n") if "ERROR" in l][:6] + out["err"].strip().split("\n")[-3:]))
                 rep = hdr + c.replay() + tail
                 # ---- O1: never a crash
                 if v not in ("ok", "reject"):
